@@ -4,10 +4,13 @@
 //	bqldrv -universe U -in cases.ndjson -out results.ndjson
 //
 // case:   {"id":1,"graphs":[[tids],[tids]],"text":"select ...;","chan":0,"bulk":10,"procs":0}
-//         or {"id":1,"mode":"stmt","text":...}: a statement executed on the persistent store; the full
-//         listing of every graph is recorded before and after (C04)
+//
+//	or {"id":1,"mode":"stmt","text":...}: a statement executed on the persistent store; the full
+//	listing of every graph is recorded before and after (C04)
+//
 // result: {"id":1,"perr":"","err":"","panic":"","timeout":false,"cols":[...],"rows":[[{k,v}...]],
-//          "clauses":[...parsed pattern in AST shape...]}
+//
+//	"clauses":[...parsed pattern in AST shape...]}
 package main
 
 import (
@@ -18,7 +21,6 @@ import (
 	"fmt"
 	"os"
 	"runtime"
-	"sort"
 	"time"
 
 	"github.com/google/badwolf/bql/grammar"
@@ -84,42 +86,44 @@ type ClauseAST struct {
 }
 
 type GraphListing struct {
-	G  string `json:"g"`
-	X  bool   `json:"x"`
-	Ls []int  `json:"ls"` // universe triple ids, sorted; 0 = a triple outside the universe
-	// triples outside the universe (blank-node reifications etc.), rendered structurally
-	Ext []ExtTriple `json:"ext"`
+	G  string    `json:"g"`
+	X  bool      `json:"x"`
+	Ts []STriple `json:"ts"`
 }
 
-// ExtTriple is a triple with components outside the universe, rendered by accessors.
-type ExtTriple struct {
-	S  string    `json:"s"`  // "N:<idx>" or "blank:<id>" or "node:<type>|<id>"
-	P  string    `json:"p"`  // "<id>|imm" or "<id>|<rank>" or "<id>|t<unixnano>"
-	O  string    `json:"o"`  // cell rendering k:v, "blank:<id>" or "?"
-	SC bqlu.Cell `json:"sc"` // subject cell when in universe
+// STriple is a stored triple rendered structurally by accessors: indices into the universe tables;
+// SB / OB carry the id of a blank node that is not in the universe (created by reification).
+type STriple struct {
+	S  int       `json:"s"`
+	SB string    `json:"sb"`
+	P  int       `json:"p"`
+	O  bqlu.Cell `json:"o"`
+	OB string    `json:"ob"`
 }
 
 type Result struct {
-	ID      int           `json:"id"`
-	Perr    string        `json:"perr"`
-	Err     string        `json:"err"`
-	Panic   string        `json:"panic"`
-	Timeout bool          `json:"timeout"`
-	Cols    []string      `json:"cols"`
-	Rows    [][]bqlu.Cell `json:"rows"`
-	Clauses []ClauseAST   `json:"clauses"`
-	Limit   int64         `json:"limit"`
+	ID      int            `json:"id"`
+	Perr    string         `json:"perr"`
+	Err     string         `json:"err"`
+	Panic   string         `json:"panic"`
+	Timeout bool           `json:"timeout"`
+	Cols    []string       `json:"cols"`
+	Rows    [][]bqlu.Cell  `json:"rows"`
+	Clauses []ClauseAST    `json:"clauses"`
+	Limit   int64          `json:"limit"`
 	Before  []GraphListing `json:"before"`
 	After   []GraphListing `json:"after"`
 }
 
 var (
-	ctx    = context.Background()
-	u      *bqlu.U
-	names  = []string{"?g1", "?g2", "?g3"}
-	store  storage.Store
-	graphs []storage.Graph
-	cur    []map[int]bool
+	ctx   = context.Background()
+	u     *bqlu.U
+	names = []string{"?g1", "?g2", "?g3"}
+	// names observed by listing(): ?gx is never created by the driver, only by statements
+	listNames = []string{"?g1", "?g2", "?g3", "?gx"}
+	store     storage.Store
+	graphs    []storage.Graph
+	cur       []map[int]bool
 )
 
 func must(err error) {
@@ -215,61 +219,39 @@ func rankOrNeg(t *time.Time) int {
 
 func listing() []GraphListing {
 	var res []GraphListing
-	for _, n := range names {
-		gl := GraphListing{G: n, Ls: []int{}, Ext: []ExtTriple{}}
+	for _, n := range listNames {
+		gl := GraphListing{G: n, Ts: []STriple{}}
 		g, err := store.Graph(ctx, n)
 		if err == nil {
 			gl.X = true
 			ch := make(chan *triple.Triple, 16)
 			go func() { g.Triples(ctx, storage.DefaultLookup, ch) }()
 			for t := range ch {
-				if id := u.TripleID(t); id > 0 {
-					gl.Ls = append(gl.Ls, id)
-				} else {
-					gl.Ext = append(gl.Ext, ext(t))
-				}
+				gl.Ts = append(gl.Ts, structural(t))
 			}
-			sort.Ints(gl.Ls)
-			sort.Slice(gl.Ext, func(i, j int) bool {
-				a, b := gl.Ext[i], gl.Ext[j]
-				return a.S+"\x00"+a.P+"\x00"+a.O < b.S+"\x00"+b.P+"\x00"+b.O
-			})
 		}
 		res = append(res, gl)
 	}
 	return res
 }
 
-func ext(t *triple.Triple) ExtTriple {
-	e := ExtTriple{}
+func structural(t *triple.Triple) STriple {
+	e := STriple{}
 	s := t.Subject()
 	if c := u.NodeCell(s); c.K == "N" {
-		e.S = fmt.Sprintf("N:%d", c.V)
+		e.S = c.V
 	} else if s.Type().String() == "/_" {
-		e.S = "blank:" + s.ID().String()
-	} else {
-		e.S = "node:" + s.Type().String() + "|" + s.ID().String()
+		e.SB = s.ID().String()
 	}
-	p := t.Predicate()
-	if ta, err := p.TimeAnchor(); err == nil {
-		if r := u.TimeRank(ta); r > 0 {
-			e.P = fmt.Sprintf("%s|%d", p.ID(), r)
-		} else {
-			e.P = fmt.Sprintf("%s|t%d", p.ID(), ta.UnixNano())
-		}
-	} else {
-		e.P = string(p.ID()) + "|imm"
+	if c := u.PredCell(t.Predicate()); c.K == "P" {
+		e.P = c.V
 	}
 	o := t.Object()
-	oc := u.ObjectCell(o)
-	if oc.K != "?" {
-		e.O = fmt.Sprintf("%s:%d", oc.K, oc.V)
-	} else if n, err := o.Node(); err == nil && n.Type().String() == "/_" {
-		e.O = "blank:" + n.ID().String()
-	} else if n, err := o.Node(); err == nil {
-		e.O = "node:" + n.Type().String() + "|" + n.ID().String()
-	} else {
-		e.O = "?"
+	e.O = u.ObjectCell(o)
+	if e.O.K == "?" {
+		if n, err := o.Node(); err == nil && n.Type().String() == "/_" {
+			e.OB = n.ID().String()
+		}
 	}
 	return e
 }
